@@ -476,3 +476,9 @@ package bgp
 //@ func getPathAttrFlags
 //@   pure
 //@   modifies nothing
+//@ props C17
+//@ interface ExtendedCommunityInterface.GetTypes
+//@   pure
+//@ func ExtCommRouteTargetKey
+//@   pure
+//@   spec-only
